@@ -59,11 +59,14 @@ where
     config.max_local_rejects = 1 << 30;
     let mut runner = TestRunner::new(config);
     let local_failed = std::sync::atomic::AtomicBool::new(false);
+    // last failing (case, failure) seen: reported if the shrunk case does not fail again (timing-dependent failures)
+    let last_failure: std::sync::Mutex<Option<(J, Fail)>> = std::sync::Mutex::new(None);
     let result = runner.run(&strat, |v| {
         let fails = oracle(&v);
         match ctx.triage(fails) {
             None => Ok(()),
             Some(f) => {
+                *last_failure.lock().unwrap() = Some((to_json(&v), f.clone()));
                 local_failed.store(true, Ordering::SeqCst);
                 ctx.failed.store(true, Ordering::SeqCst);
                 Err(TestCaseError::fail(f.sig))
@@ -75,16 +78,15 @@ where
         Err(TestError::Fail(_reason, minimal)) => {
             // re-evaluate the minimal case to get its failure detail
             let fails = oracle(&minimal);
-            let f = fails
-                .into_iter()
-                .find(|f| !ctx.is_known(&f.sig))
-                .unwrap_or_else(|| {
-                    Fail::new(
-                        "unstable",
-                        "minimal case did not fail again when re-evaluated (non-deterministic failure)",
-                    )
-                });
-            ctx.violation(f, kind, to_json(&minimal));
+            match fails.into_iter().find(|f| !ctx.is_known(&f.sig)) {
+                Some(f) => ctx.violation(f, kind, to_json(&minimal)),
+                None => {
+                    // not reproducible on re-evaluation: report the last observed failure with the case that showed it
+                    let (case, mut f) = last_failure.lock().unwrap().take().unwrap_or((to_json(&minimal), Fail::new("unstable", "failure did not reproduce")));
+                    f.detail = format!("{} [observed once; did not fail again when the shrunk case was re-run: timing-dependent]", f.detail);
+                    ctx.violation(f, kind, case);
+                }
+            }
             false
         }
         Err(TestError::Abort(reason)) => {
